@@ -107,8 +107,29 @@ b = body(jddctmgr, r"\nstart_pass\s*\(j_decompress_ptr cinfo\)", "jddctmgr start
 facts["dct_table_built_once"] = (re.search(r"idct->cur_method\[ci\] == method\)\s*continue;", b) is not None and
                                  re.search(r"qtbl = compptr->quant_table;\s*if \(qtbl == NULL\)\s*continue;", b) is not None)
 
+def rows_ahead(text, fname, header_re, helper_file):
+    """look-ahead of the 'force some input' loop of an output routine: the output of iMCU row r waits until
+    input_iMCU_row >= r + ahead (same scan)."""
+    b = body(text, header_re, fname)
+    if re.search(r"cinfo->input_iMCU_row\s*<=\s*cinfo->output_iMCU_row\s*\)", b) and "consume_input" in b:
+        return 1
+    m = re.search(r"sync_input\s*\(\s*cinfo\s*,\s*(\d+)\s*\)", b)
+    if m:
+        hb = body(helper_file, r"\nsync_input\s*\(j_decompress_ptr cinfo", "sync_input")
+        if not re.search(r"cinfo->input_iMCU_row\s*>=\s*cinfo->output_iMCU_row\s*\+\s*rows_ahead", hb):
+            die("sync_input: look-ahead condition not recognised")
+        return int(m.group(1))
+    die("force-input loop of %s not recognised" % fname)
+
+
+jdcoefct = src("jdcoefct.c")
+jddiffct = src("jddiffct.c")
+ahead = min(rows_ahead(jdcoefct, "decompress_data", r"\ndecompress_data\s*\(j_decompress_ptr cinfo", jdcoefct),
+            rows_ahead(jddiffct, "output_data", r"\noutput_data\s*\(j_decompress_ptr cinfo", jddiffct))
+
 print("(* GENERATED by tools/gen_Suspend.py from the current source tree -- do not edit *)")
 print("Definition output_pass_resets_lossless : bool := %s." % ("true" if facts["output_pass_resets_lossless"] else "false"))
+print("Definition output_rows_ahead : nat := %d." % ahead)
 print("Definition latch_by_copy : bool := %s." % ("true" if by_copy else "false"))
 names = [k for k in facts if k != "output_pass_resets_lossless"]
 for k in names:
